@@ -1,5 +1,20 @@
 """One row per claimed property (source of MANIFEST.json)."""
 CHECKS = [
+    {'id': 'C01', 'ref': 'DESIGN.md section 3 C01',
+     'technique': 'runtime monitoring at the client boundary of emg3d.solve/'
+                  'solve_source: residual of the returned (or in-place '
+                  'updated) field recomputed with an independently assembled '
+                  'operator; status read from info dict, stdout and a wrapped '
+                  'MGParameters; NUMBA_BOUNDSCHECK sanitizer build (thorough)',
+     'text': 'Thousands of real solves over random grids, models, sources and '
+             'solver configurations; for each the implication success => '
+             'residual below tol (and its contrapositive), PEC zeros, dtype, '
+             'return protocol and the reported error figures are judged by an '
+             'oracle that shares no code with the solver. Held on the '
+             'executions observed (both sides of the implication populated).',
+     'note': 'Trusted: vf/refop.py (tied to the kernel by C02), numpy/scipy. '
+             'tol >= 1e-10; sources touching the outermost cells excluded as '
+             'in the property.'},
     {'id': 'C02', 'ref': 'DESIGN.md section 3 C02',
      'technique': 'runtime monitoring: full edge-basis extraction through the '
                   'live amat_x kernel (compiled and py_func) compared with an '
